@@ -129,8 +129,13 @@ func VC_C05_api() {
 	w.AndReturn(d1)
 	w.When(5).Return(a0).AndReturn(a1)
 	w.When(6).Returns(b0, b1, b2)
+	// a clause may mix the two ways of giving a sequence
+	c0, c1, c2 := verifInt("c0"), verifInt("c1"), verifInt("c2")
+	w.When(7).Returns(c0, c1).AndReturn(c2)
 	f := reflect.MakeFunc(w.funcTyp, func(args []reflect.Value) []reflect.Value { return w.invoke(args) }).Interface().(func(int) int)
-	calls := [12]int{5, 9, 5, 6, 9, 5, 6, 6, 6, 9, 6, 5}
+	calls := [17]int{5, 9, 7, 5, 6, 9, 7, 5, 6, 6, 7, 6, 9, 7, 6, 5, 9}
+	wantC := [4]int{c0, c1, c2, c2}
+	ic := 0
 	wantA := [3]int{a0, a1, a1}
 	wantB := [5]int{b0, b1, b2, b2, b2}
 	wantD := [3]int{d0, d1, d1}
@@ -145,6 +150,13 @@ func VC_C05_api() {
 			}
 			verifAssert(got == wantA[k], "C05.api.condition-sequence")
 			ia++
+		case 7:
+			k := ic
+			if k > 3 {
+				k = 3
+			}
+			verifAssert(got == wantC[k], "C05.api.mixed-returns-andreturn-sequence")
+			ic++
 		case 6:
 			k := ib
 			if k > 4 {
